@@ -11,7 +11,7 @@ K_CONTEXT = [
 ]
 PROPS = {
     'C02': {'units': ['expr', 'lower', 'opt', 'fuse', 'fvalid', 'optm', 'run19', 'coef'], 'kani': K_ANALYSIS + [{'crate': 'p3-circuit', 'harness': 'c02_allocator_monotone'}], 'exclude': r'H_run_is_the_first_execution_of_the_op_list', 'only': {'coef': r'const_fold'}},
-    'C03': {'units': ['opt', 'fuse', 'fvalid', 'optm', 'cbconn'], 'kani': K_ANALYSIS},
+    'C03': {'units': ['opt', 'fuse', 'fvalid', 'optm', 'cbconn', 'lower'], 'kani': K_ANALYSIS},
     'C19': {'units': ['run19', 'pexec', 'pbits'], 'kani': K_CONTEXT, 'only': {'pexec': r'resolve_private_data|execute\[base_dispatch|RecomposeExecutor::execute'}},
     'C20': {'units': ['gad', 'quot', 'fri', 'periodic', 'fquery'], 'kani': [], 'only': {'fri': r'evaluate_polynomial|circuit_exp_by_constant|lemma_', 'fquery': r'final_query_point'}},
     'C07': {'units': ['fri', 'shape', 'fold', 'fchain', 'fquery', 'evpts', 'openin', 'onehot'], 'kani': [], 'only': {'shape': r'verify_fri_circuit'}, 'exclude': r'possible (bit shift|arithmetic)'},
